@@ -27,11 +27,9 @@ def shifted_center(cv, value, off):
 
 
 def vecn_last(cvs, idx):
-    """the generic-vector extractor leaves its closing parenthesis unread, so a generic vector can only be the
-    last value of a "centers" list (a parser limitation that is outside the listed properties)"""
-    v = [i for i in idx if cvs[i]["vtype"] == VECN]
-    o = [i for i in idx if cvs[i]["vtype"] != VECN]
-    return o + v[:1]
+    """historical: the generic-vector extractor used to leave its closing parenthesis unread, so that a generic vector could
+    only be the last value of a "centers" list; repaired in /repo (fix 9dbe3854), so any order is generated now"""
+    return list(idx)
 
 
 @st.composite
